@@ -27,7 +27,8 @@ def jobs(tier, seed):
     out = [('cut', ident, tier, seed) for ident in structs.all_identities() if structs.wellformed(ident)]
     out += [('free', ident, tier, seed) for ident in structs.all_identities() if structs.wellformed(ident)]
     ids = [i for i in structs.all_identities() if structs.wellformed(i)]
-    out += [('hist', ids[i:i + 12], tier, seed) for i in range(0, len(ids), 12)]
+    # cheap history jobs first (a counterexample is decisive and stops the run early)
+    out = [('hist', ids[i:i + 12], tier, seed) for i in range(0, len(ids), 12)] + out
     return out
 
 
